@@ -29,10 +29,11 @@ class GopherPlusProtocol(GopherProtocol):
         else:
             return False  # Too many params.
 
+        # Slices, not indexes: the field is empty for a request like "foo\t".
         return (
-            self.gopherpstring[0] == "+"
+            self.gopherpstring[0:1] == "+"
             or self.gopherpstring == "!"
-            or self.gopherpstring[0] == "$"
+            or self.gopherpstring[0:1] == "$"
         )
 
     def handle(self):
